@@ -625,6 +625,9 @@ def unit_rewrites(ud, rel, s, rw):
     if rel.endswith('/parser.rs'):
         # T6: specialise the fn-pointer parameter of get_enclosed_elements_with_impl_mult per call site
         s = t6_specialise(s, rw)
+        # T26: ghost step counter through the Parser methods (after T6, which creates the per-call-site copies)
+        if part == 'parser':
+            s = t26_parser_steps(s, rw)
         # T8: float constants without a Verus spec
         s = rw.literal('T8', s, 'std::f64::consts::PI', 'c_pi()')
         s = rw.literal('T8', s, 'std::f64::consts::E', 'c_e()')
@@ -648,13 +651,14 @@ def unit_rewrites(ud, rel, s, rw):
         # T25: keyword comparisons (after T10)
         s = t25_keyword_tests(s, rw)
         # T18: char / &str -> String conversions without a vstd spec -> helpers with assumed contracts (bodies = the original calls)
+        s = rw.regex('T18', s, r'(superscript_digit_to_digit\(current_char\))\s*\.map\(\|c\| c\.to_string\(\)\)\s*\.unwrap_or_default\(\)', r'verif_opt_char_string(\1)')
         s = rw.literal('T18', s, 'current_char?.to_string()', 'verif_char_string(current_char?)')
         s = rw.literal('T18', s, '"0".to_string()', 'verif_str_string("0")')
         # T17: `impl Iterator for Tokenizer { type Item = Token; fn next .. }` -> inherent impl (vstd attaches its prophetic
         # iterator laws to every `Iterator::next`; the body of `next` is unchanged)
         s = rw.regex('T17', s, r"impl<'a> Iterator for Tokenizer<'a> \{\s*type Item = Token;", "impl<'a> Tokenizer<'a> {")
         # T16: text -> number conversions
-        s = rw.regex('T16', s, r'\.parse::<(i64|f64)>\(\)\s*\.ok\(\)', r'.verif_parse_\1()')
+        s = rw.regex('T16', s, r'\.parse::<(i64|f64|u64|i128|u32|i32)>\(\)\s*\.ok\(\)', r'.verif_parse_\1()')
         s = t16_from_str(s, rw)
     if rel.endswith('/number.rs') and part == 'ast':
         # T22: the casts of Number::from(f64) (Verus gives int <-> float casts no meaning; helper bodies = the casts)
@@ -783,6 +787,52 @@ def t8_f64_consts(s, rw):
     """T8: associated constants of f64 -> helpers with uninterpreted values (f64_prims.vinc)."""
     for name, fn in F64_CONSTS:
         s = rw.regex('T8', s, r'(?<![\w:])' + re.escape(name) + r'\b', fn)
+    return s
+
+
+PARSER_METHODS = ['parse', 'get_next_token', 'check_paren', 'generate_ast', 'function_static_arguments', 'function_arguments',
+                  'find_item_list', 'parse_number', 'implicit_multiply', 'convert_token_to_node']
+
+
+def t26_parser_steps(s, rw):
+    """T26 (C02, ghost only).  Every Parser method that takes part in parsing gets a ghost step counter parameter
+    `psteps: &mut Ghost<nat>`, every call `self.m(..)` passes it on, and every such method starts with
+    `proof { *psteps = Ghost(psteps@ + 1); }`.  `Ghost<nat>` is erased by compilation; the executable text is unchanged.
+    The contracts (parser_methods.vinc) bound the counter by 8 per consumed token: the parser's work is linear in the tokens."""
+    names = list(PARSER_METHODS) + sorted(set(re.findall(r'\bfn (get_enclosed_elements_with_impl_mult_\d+)\b', s)))
+    mask = rsrc.code_mask(s)
+    edits = []           # (position, text)
+    n = 0
+    for name in names:
+        # definition
+        for m in re.finditer(r'\bfn ' + re.escape(name) + r'\s*\(', s):
+            if not mask[m.start()]:
+                continue
+            close = rsrc.match_close(s, m.end() - 1)
+            inner = s[m.end():close]
+            if 'self' not in inner:
+                continue
+            edits.append((close, ('psteps: &mut Ghost<nat>' if inner.rstrip().endswith(',') else ', psteps: &mut Ghost<nat>')))
+            # body start
+            a, bo, bc = rsrc.find_fn(s, name)
+            edits.append((bo + 1, '\n        proof { *psteps = Ghost(psteps@ + 1); }\n'))
+            n += 1
+        # calls
+        for m in re.finditer(r'\bself\.' + re.escape(name) + r'\s*\(', s):
+            if not mask[m.start()]:
+                continue
+            close = rsrc.match_close(s, m.end() - 1)
+            inner = s[m.end():close]
+            if inner.strip() == '':
+                edits.append((close, 'psteps'))
+            else:
+                edits.append((close, ('psteps' if inner.rstrip().endswith(',') else ', psteps')))
+            n += 1
+    if n == 0:
+        raise LostAnchor("T26: no Parser method found")
+    for pos, text in sorted(edits, key=lambda e: -e[0]):
+        s = s[:pos] + text + s[pos:]
+    rw.count('T26', n)
     return s
 
 
